@@ -162,6 +162,17 @@ class _Snap:
         self.bytes = bytes(1024)
 
 
+def _statu_window(datagram):
+    """(start, length) of a framed STATU request, decoded by the reference layout: STATU seq start(2) length(2)."""
+    from ..peers import unframe
+    import struct as _st
+
+    c = unframe(datagram)[2]
+    if not c.startswith(b"STATU") or len(c) != 10:
+        return ("?", c[:12])
+    return _st.unpack(">HH", c[6:10])
+
+
 def _lookup_job(job):
     """The real clients resolve the tables from the FILES reply of the (real) simulator: async _connect on the virtual
     loop up to the point where the tables are loaded, and the blocking client's _on_config_received."""
@@ -202,6 +213,15 @@ def _lookup_job(job):
         if got != (packname, cfg, log) or mods != exp_mods:
             bad.append(("lookup|async", f"async client: spa reports {packname} C{cfg:02}/S{log:02}; client loaded {got} from {mods} "
                                         f"(events {[e[0] for e in events if 'CANNOT' in e[0]]})"))
+        # the refresh window the client actually asks for is the published one (begin, end) of the log table
+        if spa.log_class is not None and spa._protocol is not None:
+            with loop.running():
+                h = spa._get_status_block_handler_func()
+            want = (spa.log_class.begin, spa.log_class.end)
+            got_w = _statu_window(h.send_bytes)
+            if got_w != want:
+                bad.append(("refresh-window|async", f"async client refreshes {packname} S{log:02} with STATU{got_w}; the "
+                                                    f"published window of that table is {want}"))
         with loop.running():
             for x in tm._tasks:
                 x.cancel()
@@ -223,6 +243,15 @@ def _lookup_job(job):
             tgot = repr(e)
         if tgot != (packname, cfg, log) + exp_mods:
             bad.append(("lookup|threaded", f"blocking client: spa reports {packname} C{cfg:02}/S{log:02}; client loaded {tgot}"))
+        else:
+            reqs = []
+            tspa.struct.retry_request = lambda sock, handler, parms: reqs.append(_statu_window(handler.send_bytes))
+            tspa._is_connected = True
+            tspa.refresh()
+            want = (tspa.new_log_class.begin, tspa.new_log_class.end)
+            if reqs != [want]:
+                bad.append(("refresh-window|threaded", f"blocking client refreshes {packname} S{log:02} with STATU{reqs}; the published "
+                                                       f"window of that table is {want}"))
         if bad:
             break
     return plat, n, bad
